@@ -32,7 +32,12 @@ func Verify(ctx context.Context, in io.Reader, key *dsig.PublicKey) error {
 	if !env.Signed() {
 		return wrapErrorf(http.StatusUnprocessableEntity, "envelope is not signed")
 	}
-	if err := env.Signatures[0].VerifyPayload(key, env); err != nil {
+	if _, err := env.Signatures[0].Verify(key); err != nil {
+		return wrapError(http.StatusUnprocessableEntity, err)
+	}
+	// the key matches: now check every signature against the envelope's
+	// header, so that content the key holder did not sign is refused.
+	if err := env.Verify(key); err != nil {
 		return wrapError(http.StatusUnprocessableEntity, err)
 	}
 	return nil
